@@ -84,6 +84,8 @@ structure BoundaryCase where
 abbrev ObsTab := List ((Nat × List (String × Rat)) × List Rat)
 
 structure LossCase where
+  spinn    : Bool
+  d        : Nat
   kind     : String
   inside   : List (List Rat)
   sliceSol : Slice
@@ -164,6 +166,12 @@ def parseObs (j : Json) (sliceSol : Slice) : Except String (ObsCfg Nat String) :
 
 def parseLossCase (j : Json) : Except String LossCase := do
   let kind ← getStr j "kind"
+  let spinn := match j.getObjVal? "spinn" with
+    | .ok (.bool g) => g
+    | _ => false
+  let d := match j.getObjVal? "d" with
+    | .ok v => (v.getNat?.toOption).getD 0
+    | _ => 0
   let inside ← getRatMat j "inside"
   let sliceSol ← parseSlice (optField j "slice_solution")
   let dyn ← (match optField j "dyn" with
@@ -182,16 +190,18 @@ def parseLossCase (j : Json) : Except String LossCase := do
     else
       let u0 ← getTab c "u0"
       let uAt0 ← getTab c "u_at_0"
-      requireKeys "ic u0" u0 (inside.map (·.drop 1))
-      requireKeys "ic u_at_0" uAt0 (inside.map (·.drop 1))
+      let xs := if spinn then gridPts d (inside.map (·.drop 1)) else inside.map (·.drop 1)
+      requireKeys "ic u0" u0 xs
+      requireKeys "ic u_at_0" uAt0 xs
       icPde := some (← parseWeight (← c.getObjVal? "w"), u0, uAt0)
   let norm ← (match optField j "norm" with
     | none => pure none
     | some c => do
       let samples ← getRatMat c "samples"
       let tab ← getTab c "tab"
-      if kind == "statio" then requireKeys "norm" tab samples
-      else requireKeys "norm" tab ((inside.map (·.take 1)).flatMap fun t => samples.map (t ++ ·))
+      let spts := if spinn then gridPts d samples else samples
+      if kind == "statio" then requireKeys "norm" tab spts
+      else requireKeys "norm" tab ((inside.map (·.take 1)).flatMap fun t => spts.map (t ++ ·))
       pure (some (← getRat c "w", ← getRat c "L", samples, tab)))
   let boundary ← (match optField j "boundary" with
     | none => pure none
@@ -199,7 +209,7 @@ def parseLossCase (j : Json) : Except String LossCase := do
   let obs ← (match optField j "obs" with
     | none => pure none
     | some c => do pure (some (← parseObs c sliceSol)))
-  pure { kind := kind, inside := inside, sliceSol := sliceSol, dyn := dyn, icOde := icOde,
+  pure { spinn := spinn, d := d, kind := kind, inside := inside, sliceSol := sliceSol, dyn := dyn, icOde := icOde,
          icPde := icPde, norm := norm, boundary := boundary, obs := obs }
 
 def BoundaryCase.spec (b : BoundaryCase) : Jinns.Boundary.Spec :=
@@ -221,7 +231,7 @@ def BoundaryCase.check (b : BoundaryCase) : Except String Unit := do
     | none => pure ()
     | some f =>
       let rows := Jinns.Boundary.facetPts b.border k
-      let pts := if b.grid then Jinns.Boundary.gridPts (Jinns.Boundary.nCoords b.border) rows else rows
+      let pts := if b.grid then gridPts (Jinns.Boundary.nCoords b.border) rows else rows
       requireKeys s!"boundary f (facet {k})" f.ftab pts
       requireKeys "boundary u" b.utab pts
       requireKeys "boundary jac" b.jtab pts
@@ -249,6 +259,23 @@ def LossCase.run (c : LossCase) : Except String (Bool × Rat × List (String × 
       b.check
       bval := some b.value
   if rejected then return (true, 0, [])
+  if c.spinn then
+    match c.kind with
+    | "statio" =>
+      let (tot, t) := lossStatioSpinn c.d (c.norm.map fun (w, L, samples, tab) => (w, L, tabFn tab, samples)) bval
+      return (false, tot, pdeTermsJ t)
+    | "nonstatio" =>
+      match c.norm with
+      | some (_, _, samples, _) =>
+        if normSpinnRejected c.inside.length samples.length then return (true, 0, [])
+      | none => pure ()
+      let rows : List (Rat × List Rat) := c.inside.map fun r => (r.headD 0, r.drop 1)
+      let (tot, t) := lossNonStatioSpinn c.d
+        (c.norm.map fun (w, L, samples, tab) =>
+          (w, L, (fun (t : Rat) (s : List Rat) => tabFn tab (t :: s)), samples))
+        bval (c.icPde.map fun (w, u0, uAt0) => (w, tabFn u0, tabFn uAt0)) rows
+      return (false, tot, pdeTermsJ t)
+    | k => throw s!"spinn: unknown kind {k}"
   match c.kind with
   | "ode" =>
     let (tot, t) := lossODE (c.dyn.map fun (w, tab) => (w, tabFn tab)) c.icOde c.obs c.inside
